@@ -91,6 +91,18 @@ CHECKS["C16"] = dict(level="model_checking", design="5 C16",
    note="Switch points are source lines of transport.py / task.py (no byte-code level races inside a line). Connections are fakes (write on a "
         "closed connection raises SerialException). The send lock is not explored (a single pump sends).",
    technique="TLC model checking of SendRace.tla + bounded-preemption schedule enumeration of the real code, traces validated by TLC (SendRaceTrace.tla)")
+CHECKS["C20"] = dict(level="model_checking", design="5 C20",
+   text="Link.tla models connection supervision on a discrete clock for serial/tcp x threaded/asyncio: connect loop (attempt / sleep R), "
+        "per-connection made / lost counters, unrequested loss followed by an immediate reconnect, stop(), and the TCP watchdog (probe after R, "
+        "drop after 2R; asyncio checks only when its R+0.1 timer fires). TLC checks MadeOncePerConnection, LostOncePerLostConnection, "
+        "AtMostOneLiveLink, ReconnectAfterLoss, RetryEveryR, QuietAfterStop, AnsweredNeverDropped, SilentDroppedInTime. TLC-generated event "
+        "sequences (LinkGen.tla) are played against the four real gateway classes on fake pyserial / socket / select / asyncio transports and "
+        "a virtual clock (predicate-based quiescence); counts, attempt times, live connections, probes and post-stop activity after every event "
+        "are validated by TLC (LinkTrace.tla). Thread interleavings of loss vs failing write are covered by the line scheduler + SendRace.tla.",
+   note="Fakes implement the documented behaviour of pyserial / sockets / asyncio transports; real timing is replaced by a virtual clock. Two open "
+        "known findings (asyncio: no reconnect after an orderly close by the peer; threaded: two reconnects for one loss) are subtracted by "
+        "structural signature.",
+   technique="TLC model checking of Link.tla + replay of TLC-generated event sequences into the real gateways, traces validated by TLC (LinkTrace.tla)")
 CHECKS["C09"] = dict(level="model_checking", design="5 C09",
    text="Ota.tla states what an OTA server must serve (0xFF padding of at most one page to a multiple of 128, 16-byte blocks, "
         "little-endian words, CRC-16/MODBUS defined bit by bit). TLC checks the spec's arithmetic for every length 1..400 and then acts "
